@@ -145,8 +145,19 @@ def r_legacy_step(ck: Checker) -> None:
     # aliases for the element (element = elements[0]) defined before the loop take part in the resolution
     pre = [st for st in body[:idx] if isinstance(st, ast.Assign) and len(st.targets) == 1 and isinstance(st.targets[0], ast.Name)]
     rows = bool_function(pre + tail, resolve=True)
-    bad = [str(b) for b in check_formula(rows, list(k.values()), lambda a: bool(a[k["inst"]] and (a[k["pfn"]] or a[k["pfe"]]) and (a[k["pin"]] or a[k["pie"]]) and a[k["up"]]),
-                                         where=last)]
+    # the node's field name may be computed by cases (`node.parent_field` present or not): tie the case atoms to the single term
+    k_has = f"{np_}.parent_field"
+    k_eqn = k_eq(f"{el}.parent_field", f"{np_}.parent_field.name")
+    k_eq0 = k_eq(f"{el}.parent_field", "None")
+    known = list(k.values()) + [k_has, k_eqn, k_eq0]
+
+    def feasible(a: dict) -> bool:
+        if a[k_eq0] != a[k["pfn"]]:
+            return False  # a field constraint equals None exactly when it is None
+        return a[k["pfe"]] == ((a[k_has] and a[k_eqn]) or (not a[k_has] and a[k_eq0]))
+
+    bad = [str(b) for b in check_formula(rows, known, lambda a: bool(a[k["inst"]] and (a[k["pfn"]] or a[k["pfe"]]) and (a[k["pin"]] or a[k["pie"]]) and a[k["up"]]),
+                                         where=last, feasible=feasible)]
     (ck.violation if bad else ck.holds)("R-XP-SHARED", f, last, what, evaluations=len(rows), **({"construct": f"legacy _match_node_xpath: {bad[0]}"} if bad else {}))
 
 
